@@ -394,6 +394,9 @@ def assemble(unit, canary=False, mutant=None, check_fp=True):
             if it.vis == "pub":
                 # all-public variant (needed when a trait impl's `open spec fn` mentions the fields)
                 text = "pub " + re.sub(r"(?m)^(\s+)([a-z_][A-Za-z0-9_]*\s*:)", r"\1pub \2", text)
+                if it.kind == "struct":
+                    # single-field tuple struct: `struct S<..>(T);` -> `struct S<..>(pub T);`
+                    text = re.sub(r"^(pub struct \w+(?:<[^>]*>)?\()(?!pub )", r"\1pub ", text, count=1)
             info["sha256"] = hashlib.sha256(src[x["kw_start"]:x["end"]]).hexdigest()
             A.add(text + "\n", {"kind": "typedef", "item": it.id, "file": it.file, "tags": []})
             A.items.append(info)
